@@ -6,7 +6,9 @@
 //   * impl SparseExpansionMapTrait for SOCExpansionMap / GenPowExpansionMap / Vec<SparseExpansionMap>   pdim, nnz_vec, Dsigns (the Vec sums are the left
 //     folds maps_pdim / maps_nnz; Dsigns of the Vec is unreachable!() and proved unreachable under its contract)
 //   * _fill_signs                              +1 on 0..n, -1 on n..n+m, then Dsigns() of every sparse map in order at offset m + n + (pdim of the maps before), +1 behind
-//   * allocate_kkt_Hsblocks                    length = end of the last block range, or 0
+//   * allocate_kkt_Hsblocks                    length = end of the last block range, or 0   (extracted with both type parameters, see FloatT below)
+//   * LDLDataMap::new (R22)                    |P| = nnz(P), |A| = nnz(A), |diagP| = n, |Hsblocks| as above, |diag_full| = m + n + sum of pdim, and maps_match: the i-th
+//     sparse-expandable cone owns the i-th sparse map, of its kind and size (SOCExpansionMap::new, GenPowExpansionMap::new, the two expansion_map)
 //   * assemble_kkt_matrix  [statement slice `let nnz_diagP =` .. `let mut K = ..spalloc(..)`, as kkt_alloc_slice]   no underflow in `n - nnz_diagP`; K is
 //     (m+n+p) x (m+n+p) with nnz_kkt(..) slots and zero counts.   DROPPED: LDLDataMap::new call, the two assembly calls, the returned pair
 //   * SecondOrderCone::numel / is_sparse_expandable / Hs_is_diagonal, GenPowerCone::numel / dim / dim1 / dim2 / is_sparse_expandable / Hs_is_diagonal,
@@ -19,6 +21,8 @@
 //     cursors advance by cones_cnt, only slots between old and new cursor of a column change (step_frame), map.P / A / diagP / diag_full untouched, and
 //     along a ghost chain of states the contract of each helper holds cone by cone (kf_chain: Hs block slots recorded in map.Hsblocks[rng_blocks[k]],
 //     sparse expansion recorded in the k-th sparse map).  lemma_counts_give_cone_pre: counts + colcount_to_colptr + arm advance => kf_room.
+//     lemma_chain_persist: a slot below the cursor of its column after a helper has, in final(K), the content it had then (so every recorded slot
+//     holds the stated entry at the end of the loop).
 //     DROPPED: colcount_to_colptr and the P / A fill arm before, backshift_colptrs and the diagonal-map arm after (each under contract in csc_utils)
 //
 // ASSUMED (listed with the reason):
@@ -31,15 +35,16 @@
 //     (HAND-WRITTEN STAND-IN) and verified against the per-variant contracts.
 //   * SupportedCone<T>: hand-written stand-in with the real variants SecondOrderCone, GenPowerCone and ONE variant OtherCone{numel, hs_diag} for ZeroCone,
 //     NonnegativeCone, ExponentialCone, PowerCone (PSDTriangleCone is cfg'd off); assumed by inspection: their is_sparse_expandable() is `false`.
-//   * trait Zero (num_traits): stand-in with `zero()` only.   Range<T>::clone returns an equal range (assume_specification).
+//   * trait Zero (num_traits): stand-in with `zero()` only; trait FloatT: marker stand-in.   Range<T>::clone returns an equal range (assume_specification).
+//   * SparseExpansionCone / SupportedCone::expansion_map / to_sparse_expansion: see enum_dispatch above (to_sparse_expansion is real text).
 //   * well-formedness taken as `requires`, established by code outside the unit: kc_pre (cone ranges inside the m rows, K has m + n + p columns, the i-th
-//     sparse-expandable cone owns the i-th sparse map of its own kind and size: what LDLDataMap::new builds – NOT proved, see below), rb_ok (rng_blocks as
+//     sparse-expandable cone owns the i-th sparse map of its own kind and size: maps_match, the postcondition of LDLDataMap::new), rb_ok (rng_blocks as
 //     make_rng_blocks builds them), sizes fit usize in kkt_alloc_slice (nothing in the real code checks it).
 //   * prelude/std_assumed.rs (<[T]>::fill), vstd's iterator model for slice::Iter / IterMut (`remaining()`, `final()` of handed-out &mut).
 //
-// NOT DONE: LDLDataMap::new (needs R22 over a closure with a `|&c|` pattern, Vec::with_capacity / push of expansion maps and the expansion_map dispatch;
-//   the vocabulary it would establish – maps_match – is in place); a final-state restatement of kf_chain (persistence of every recorded slot up to final(K):
-//   follows from step_frame + spacing, lemma not written); the composition of the slices with the arms of csc_utils inside one function body.
+// NOT DONE: per-kind restatements of the content clauses on final(K) (they are one lemma_chain_persist call per clause away); make_rng_cones / make_rng_blocks
+//   (rb_ok and the cone-range part of kc_pre stay `requires`); the composition of the slices with the arms of csc_utils inside one function body
+//   (kkt_triu_post of csc_utils does not state that the cursors of the columns >= n + m are unchanged, which lemma_counts_give_cone_pre needs as arm(c) = 0).
 //
 // New extractor rules (additive, tools/extract.py): R31 (inline a group of immutable let-bound iterator expressions into the arms of the `match` that
 // follows, each arm using each exactly once, first), R14 zip leaf `A..B` / `(A..B).rev()` over usize (element A + i / B - 1 - i, B - A elements),
@@ -374,10 +379,13 @@ impl CompositeCone<F> {
 //@end
 }
 
-// HAND-WRITTEN STAND-IN for num_traits::Zero (only `zero()` is used)
+// HAND-WRITTEN STAND-INS for num_traits::Zero (only `zero()` is used) and for the bound FloatT (a marker here: allocate_kkt_Hsblocks is
+// extracted with BOTH its type parameters, so that the real call `allocate_kkt_Hsblocks::<T, usize>(cones)` in LDLDataMap::new type-checks)
 pub trait Zero: Sized { fn zero() -> Self; }
 impl Zero for usize { fn zero() -> (r: usize) ensures r == 0 { 0 } }
-//@fn file=src/solver/core/kktsolvers/direct/quasidef/kkt_assembly.rs name=allocate_kkt_Hsblocks rules=R1 ret=r
+pub trait FloatT { }
+impl FloatT for F { }
+//@fn file=src/solver/core/kktsolvers/direct/quasidef/kkt_assembly.rs name=allocate_kkt_Hsblocks ret=r
 //@contract
     ensures
         // one slot per Hs entry: the block ranges are consecutive, so the total is where the last one ends
@@ -562,7 +570,7 @@ pub struct KCtx { pub cs: Seq<SupportedCone<F>>, pub rng: Seq<Range<usize>>, pub
 // auxiliary columns used by the first k cones; cone k's expansion starts at column mn + cones_pdim(cs, k)
 pub open spec fn cones_pdim(cs: Seq<SupportedCone<F>>, k: int) -> int decreases k { if k <= 0 { 0 } else { cones_pdim(cs, k - 1) + cs[k - 1].pdim_s() } }
 // number of sparse-expandable cones among the first k (= index of cone k's map in the list of sparse maps)
-pub open spec fn nsparse(cs: Seq<SupportedCone<F>>, k: int) -> int decreases k { if k <= 0 { 0 } else { nsparse(cs, k - 1) + (if cs[k - 1].sparse_s() { 1int } else { 0int }) } }
+pub open spec fn sparse_before(cs: Seq<SupportedCone<F>>, k: int) -> int decreases k { if k <= 0 { 0 } else { sparse_before(cs, k - 1) + (if cs[k - 1].sparse_s() { 1int } else { 0int }) } }
 pub open spec fn row_of(x: KCtx, i: int) -> int { x.rng[i].start + x.n }
 // C11: what the first k cones contribute to column c, as the left fold the loop performs
 pub open spec fn cones_cnt(x: KCtx, k: int, c: int) -> int decreases k {
@@ -578,8 +586,8 @@ pub open spec fn map_matches(cone: SupportedCone<F>, map: SparseExpansionMap) ->
     }
 }
 pub open spec fn maps_match(cs: Seq<SupportedCone<F>>, maps: Seq<SparseExpansionMap>) -> bool {
-    &&& maps.len() == nsparse(cs, cs.len() as int)
-    &&& forall|i: int| 0 <= i < cs.len() && (#[trigger] cs[i]).sparse_s() ==> map_matches(cs[i], maps[nsparse(cs, i)])
+    &&& maps.len() == sparse_before(cs, cs.len() as int)
+    &&& forall|i: int| 0 <= i < cs.len() && (#[trigger] cs[i]).sparse_s() ==> map_matches(cs[i], maps[sparse_before(cs, i)])
 }
 pub proof fn lemma_cone_cnt_nonneg(cone: SupportedCone<F>, shape: MatrixTriangle, row: int, pcol: int, c: int)
     ensures 0 <= hs_cnt(cone, shape, row, c), 0 <= cone.sx_cnt(shape, row, pcol, c), 0 <= cone_cnt(cone, shape, row, pcol, c),
@@ -594,7 +602,7 @@ pub proof fn lemma_cones_cnt_mono(x: KCtx, a: int, b: int, c: int)
 }
 pub proof fn lemma_cones_pdim_mono(cs: Seq<SupportedCone<F>>, a: int, b: int)
     requires 0 <= a <= b,
-    ensures 0 <= cones_pdim(cs, a) <= cones_pdim(cs, b), 0 <= nsparse(cs, a) <= nsparse(cs, b), nsparse(cs, b) <= b,
+    ensures 0 <= cones_pdim(cs, a) <= cones_pdim(cs, b), 0 <= sparse_before(cs, a) <= sparse_before(cs, b), sparse_before(cs, b) <= b,
     decreases b,
 {
     if a < b { lemma_cones_pdim_mono(cs, a, b - 1); } else if b > 0 { lemma_cones_pdim_mono(cs, a - 1, b - 1); }
@@ -645,7 +653,7 @@ it
             K.colptr@.len() == K0.colptr@.len(), K.m == K0.m, K.n == K0.n, K.rowval@ == K0.rowval@, K.nzval@ == K0.nzval@,
             forall|c: int| 0 <= c < K0.colptr@.len() ==> #[trigger] K.colptr@[c] == K0.colptr@[c] + cones_cnt(x, it.index@ as int, c),
             pcol == x.mn + cones_pdim(x.cs, it.index@ as int),
-            sparse_map_iter.obeys_prophetic_iter_laws(), refs_from(sparse_map_iter.remaining(), maps, nsparse(x.cs, it.index@ as int)),
+            sparse_map_iter.obeys_prophetic_iter_laws(), refs_from(sparse_map_iter.remaining(), maps, sparse_before(x.cs, it.index@ as int)),
 //@body_start 1
         let ghost gi = it.index@ as int;
         let ghost K1 = *K;
@@ -670,8 +678,8 @@ it
         proof {
             assert forall|c: int| 0 <= c < K0.colptr@.len() implies #[trigger] K2.colptr@[c] == K1.colptr@[c] + hs_cnt(x.cs[gi], x.shape, grow, c) by { }
             if x.cs[gi].sparse_s() {
-                assert(map_matches(x.cs[gi], maps[nsparse(x.cs, gi)]));
-                assert(nsparse(x.cs, gi + 1) == nsparse(x.cs, gi) + 1);
+                assert(map_matches(x.cs[gi], maps[sparse_before(x.cs, gi)]));
+                assert(sparse_before(x.cs, gi + 1) == sparse_before(x.cs, gi) + 1);
                 assert(cones_pdim(x.cs, gi + 1) == cones_pdim(x.cs, gi) + x.cs[gi].pdim_s());
                 assert forall|c: int| 0 <= c < K0.colptr@.len() implies #[trigger] K2.colptr@[c] + x.cs[gi].sx_cnt(x.shape, grow, gp, c) <= usize::MAX by {
                     assert(K1.colptr@[c] + cone_cnt(x.cs[gi], x.shape, grow, gp, c) <= usize::MAX);
@@ -681,7 +689,7 @@ it
 //@body_end 1
         proof {
             assert(cones_pdim(x.cs, gi + 1) == cones_pdim(x.cs, gi) + x.cs[gi].pdim_s());
-            assert(nsparse(x.cs, gi + 1) == nsparse(x.cs, gi) + (if x.cs[gi].sparse_s() { 1int } else { 0int }));
+            assert(sparse_before(x.cs, gi + 1) == sparse_before(x.cs, gi) + (if x.cs[gi].sparse_s() { 1int } else { 0int }));
             assert forall|c: int| 0 <= c < K0.colptr@.len() implies #[trigger] K.colptr@[c] == K0.colptr@[c] + cones_cnt(x, gi + 1, c) by {
                 assert(K2.colptr@[c] == K1.colptr@[c] + hs_cnt(x.cs[gi], x.shape, grow, c));
                 assert(cones_cnt(x, gi + 1, c) == cones_cnt(x, gi, c) + cone_cnt(x.cs[gi], x.shape, grow, gp, c));
@@ -957,6 +965,7 @@ pub proof fn lemma_room(x: KCtx, K0: CscMatrix<F>, Kx: CscMatrix<F>, need: spec_
 }
 // uniform frame of a fill step: only slots between the old and the new cursor of some column change
 pub open spec fn cur_free(cpa: Seq<usize>, cpb: Seq<usize>, s: int) -> bool { forall|c: int| 0 <= c < cpa.len() ==> !(#[trigger] cpa[c] <= s < cpb[c]) }
+#[verifier::opaque]
 pub open spec fn step_frame(Ka: CscMatrix<F>, Kb: CscMatrix<F>) -> bool {
     &&& Kb.rowval@.len() == Ka.rowval@.len() && Kb.nzval@.len() == Ka.nzval@.len() && Kb.colptr@.len() == Ka.colptr@.len()
     &&& forall|s: int| 0 <= s < Ka.rowval@.len() && #[trigger] cur_free(Ka.colptr@, Kb.colptr@, s) ==> Kb.rowval@[s] == Ka.rowval@[s] && Kb.nzval@[s] == Ka.nzval@[s]
@@ -966,6 +975,7 @@ pub proof fn lemma_frame_trans(Ka: CscMatrix<F>, Kb: CscMatrix<F>, Kc: CscMatrix
         forall|c: int| 0 <= c < Ka.colptr@.len() ==> Ka.colptr@[c] <= #[trigger] Kb.colptr@[c] <= Kc.colptr@[c],
     ensures step_frame(Ka, Kc),
 {
+    reveal(step_frame);
     assert forall|s: int| 0 <= s < Ka.rowval@.len() && #[trigger] cur_free(Ka.colptr@, Kc.colptr@, s) implies Kc.rowval@[s] == Ka.rowval@[s] && Kc.nzval@[s] == Ka.nzval@[s] by {
         assert(cur_free(Ka.colptr@, Kb.colptr@, s)) by {
             assert forall|c: int| 0 <= c < Ka.colptr@.len() implies !(#[trigger] Ka.colptr@[c] <= s < Kb.colptr@[c]) by { assert(Kb.colptr@[c] <= Kc.colptr@[c]); }
@@ -999,6 +1009,7 @@ pub proof fn lemma_hs_step(cone: SupportedCone<F>, shape: MatrixTriangle, row: i
         step_frame(Ka, Kb), Kb.arrays_ok(), blk.len() == blk0.len(),
         forall|c: int| 0 <= c < Ka.colptr@.len() ==> #[trigger] Kb.colptr@[c] == Ka.colptr@[c] + hs_cnt(cone, shape, row, c),
 {
+    reveal(step_frame);
     let bd = cone.numel_s();
     if cone.hs_diag_s() {
         assert forall|c: int| 0 <= c < Ka.colptr@.len() implies #[trigger] Kb.colptr@[c] == Ka.colptr@[c] + hs_cnt(cone, shape, row, c) by {
@@ -1041,6 +1052,7 @@ pub proof fn lemma_sx_step(cone: SupportedCone<F>, shape: MatrixTriangle, row: i
         step_frame(Kb, Kc),
         forall|c: int| 0 <= c < Kb.colptr@.len() ==> #[trigger] Kc.colptr@[c] == Kb.colptr@[c] + cone.sx_cnt(shape, row, pcol, c),
 {
+    reveal(step_frame);
     match cone {
         SupportedCone::SecondOrderCone(sc) => {
             let need = |c: int| soc_cnt(shape, row, pcol, sc.dim as int, c);
@@ -1067,40 +1079,41 @@ pub open spec fn kstep(k: int) -> bool { true }
 // C11: for every finished cone k the two helper contracts hold between consecutive states of the chain, its slice of
 // map.Hsblocks holds the recorded slots, its sparse map (if any) the slots of the expansion, and cone k started at the cursors
 // K0.colptr[c] + cones_cnt(k, c)
+#[verifier::opaque]
 pub open spec fn kf_chain(x: KCtx, rb: Seq<Range<usize>>, st: Seq<CscMatrix<F>>, b0: Seq<Seq<usize>>, hsb: Seq<usize>, fmaps: Seq<SparseExpansionMap>, i: int) -> bool {
     &&& st.len() == 2 * i + 1 && b0.len() == i
+    &&& forall|k: int| 0 <= k <= i && #[trigger] kstep(k) ==> at_cone(x, st[0], st[2 * k], k)
     &&& forall|k: int| 0 <= k < i && #[trigger] kstep(k) ==> {
         &&& hs_step(x.cs[k], x.shape, row_of(x, k), st[2 * k], st[2 * k + 1], b0[k], hsb.subrange(rb[k].start as int, rb[k].end as int))
-        &&& if x.cs[k].sparse_s() { sx_step(x.cs[k], x.shape, row_of(x, k), x.mn + cones_pdim(x.cs, k), st[2 * k + 1], st[2 * k + 2], fmaps[nsparse(x.cs, k)]) }
+        &&& if x.cs[k].sparse_s() { sx_step(x.cs[k], x.shape, row_of(x, k), x.mn + cones_pdim(x.cs, k), st[2 * k + 1], st[2 * k + 2], fmaps[sparse_before(x.cs, k)]) }
             else { st[2 * k + 2] == st[2 * k + 1] }
-        &&& forall|c: int| 0 <= c < st[0].colptr@.len() ==> #[trigger] st[2 * k].colptr@[c] == st[0].colptr@[c] + cones_cnt(x, k, c)
     }
 }
 pub assume_specification<T: Clone> [<Range<T> as Clone>::clone] (r: &Range<T>) -> (c: Range<T>)
     ensures c == *r;
 // extending the chain by one cone
 #[verifier::spinoff_prover]
-pub proof fn lemma_chain_push(x: KCtx, rb: Seq<Range<usize>>, st: Seq<CscMatrix<F>>, b0: Seq<Seq<usize>>, hsb: Seq<usize>, fm: Seq<SparseExpansionMap>, i: int,
+pub proof fn lemma_chain_push(x: KCtx, maps: Seq<SparseExpansionMap>, K0: CscMatrix<F>, rb: Seq<Range<usize>>, st: Seq<CscMatrix<F>>, b0: Seq<Seq<usize>>, hsb: Seq<usize>, fm: Seq<SparseExpansionMap>, i: int,
                               K2: CscMatrix<F>, K3: CscMatrix<F>, blk0: Seq<usize>, hsb2: Seq<usize>, fm2: Seq<SparseExpansionMap>)
     requires
-        kf_chain(x, rb, st, b0, hsb, fm, i), 0 <= i < x.cs.len(), rb_ok(x.cs, rb, hsb.len() as int), hsb2.len() == hsb.len(),
-        fm.len() == nsparse(x.cs, i),
+        kf_chain(x, rb, st, b0, hsb, fm, i), 0 <= i < x.cs.len(), kf_pre(x, maps, K0, rb, hsb.len() as int), hsb2.len() == hsb.len(),
+        fm.len() == sparse_before(x.cs, i),
         // the map changed only inside block i
         forall|t: int| 0 <= t < hsb.len() && !(rb[i].start <= t < rb[i].end) ==> #[trigger] hsb2[t] == hsb[t],
         hs_step(x.cs[i], x.shape, row_of(x, i), st[2 * i], K2, blk0, hsb2.subrange(rb[i].start as int, rb[i].end as int)),
-        if x.cs[i].sparse_s() { fm2 == fm.push(fm2[nsparse(x.cs, i)]) && sx_step(x.cs[i], x.shape, row_of(x, i), x.mn + cones_pdim(x.cs, i), K2, K3, fm2[nsparse(x.cs, i)]) }
+        if x.cs[i].sparse_s() { fm2 == fm.push(fm2[sparse_before(x.cs, i)]) && sx_step(x.cs[i], x.shape, row_of(x, i), x.mn + cones_pdim(x.cs, i), K2, K3, fm2[sparse_before(x.cs, i)]) }
         else { K3 == K2 && fm2 == fm },
-        forall|c: int| 0 <= c < st[0].colptr@.len() ==> #[trigger] st[2 * i].colptr@[c] == st[0].colptr@[c] + cones_cnt(x, i, c),
+        at_cone(x, st[0], K3, i + 1),
     ensures kf_chain(x, rb, st.push(K2).push(K3), b0.push(blk0), hsb2, fm2, i + 1),
 {
+    reveal(kf_chain); reveal(kf_pre);
     let st2 = st.push(K2).push(K3);
     let b2 = b0.push(blk0);
     lemma_cones_pdim_mono(x.cs, 0, i);
     assert forall|k: int| 0 <= k < i + 1 && #[trigger] kstep(k) implies ({
         &&& hs_step(x.cs[k], x.shape, row_of(x, k), st2[2 * k], st2[2 * k + 1], b2[k], hsb2.subrange(rb[k].start as int, rb[k].end as int))
-        &&& if x.cs[k].sparse_s() { sx_step(x.cs[k], x.shape, row_of(x, k), x.mn + cones_pdim(x.cs, k), st2[2 * k + 1], st2[2 * k + 2], fm2[nsparse(x.cs, k)]) }
+        &&& if x.cs[k].sparse_s() { sx_step(x.cs[k], x.shape, row_of(x, k), x.mn + cones_pdim(x.cs, k), st2[2 * k + 1], st2[2 * k + 2], fm2[sparse_before(x.cs, k)]) }
             else { st2[2 * k + 2] == st2[2 * k + 1] }
-        &&& forall|c: int| 0 <= c < st2[0].colptr@.len() ==> #[trigger] st2[2 * k].colptr@[c] == st2[0].colptr@[c] + cones_cnt(x, k, c)
     }) by {
         if k < i {
             assert(kstep(k));
@@ -1109,26 +1122,37 @@ pub proof fn lemma_chain_push(x: KCtx, rb: Seq<Range<usize>>, st: Seq<CscMatrix<
             assert(hsb2.subrange(rb[k].start as int, rb[k].end as int) =~= hsb.subrange(rb[k].start as int, rb[k].end as int));
             if x.cs[k].sparse_s() {
                 lemma_cones_pdim_mono(x.cs, k + 1, i); lemma_cones_pdim_mono(x.cs, 0, k);
-                assert(nsparse(x.cs, k + 1) == nsparse(x.cs, k) + 1);
-                assert(fm2[nsparse(x.cs, k)] == fm[nsparse(x.cs, k)]);
+                assert(sparse_before(x.cs, k + 1) == sparse_before(x.cs, k) + 1);
+                assert(fm2[sparse_before(x.cs, k)] == fm[sparse_before(x.cs, k)]);
             }
         } else {
             assert(st2[2 * i] == st[2 * i] && st2[2 * i + 1] == K2 && st2[2 * i + 2] == K3 && b2[i] == blk0);
         }
+    }
+    assert forall|k: int| 0 <= k <= i + 1 && #[trigger] kstep(k) implies at_cone(x, st2[0], st2[2 * k], k) by {
         assert(st2[0] == st[0]);
+        if k <= i { assert(st2[2 * k] == st[2 * k]); } else { assert(st2[2 * (i + 1)] == K3); }
     }
 }
 
+// everything the loop assumes about its inputs, as one opaque predicate (the loop body only hands it to the lemmas)
+#[verifier::opaque]
+pub open spec fn kf_pre(x: KCtx, maps: Seq<SparseExpansionMap>, K0: CscMatrix<F>, rb: Seq<Range<usize>>, hslen: int) -> bool {
+    kc_pre(x, maps, K0.colptr@.len() as int) && kf_room(x, K0) && rb_ok(x.cs, rb, hslen)
+}
 // state at the start of cone i: the cursors have advanced by the contribution of the first i cones
+#[verifier::opaque]
 pub open spec fn at_cone(x: KCtx, K0: CscMatrix<F>, K1: CscMatrix<F>, i: int) -> bool {
     &&& K1.arrays_ok() && K1.rowval@.len() == K0.rowval@.len() && K1.colptr@.len() == K0.colptr@.len()
     &&& forall|c: int| 0 <= c < K0.colptr@.len() ==> #[trigger] K1.colptr@[c] == K0.colptr@[c] + cones_cnt(x, i, c)
 }
 // lemma_counts_give_cone_pre, part 1: the cursor hand-over condition gives the precondition of the Hs helper of cone i
 #[verifier::spinoff_prover]
-pub proof fn lemma_hs_pre(x: KCtx, maps: Seq<SparseExpansionMap>, K0: CscMatrix<F>, K1: CscMatrix<F>, i: int, blklen: int)
-    requires kc_pre(x, maps, K0.colptr@.len() as int), kf_room(x, K0), at_cone(x, K0, K1, i), 0 <= i < x.cs.len(), blklen == blk_len(x.cs[i]),
+pub proof fn lemma_hs_pre(x: KCtx, maps: Seq<SparseExpansionMap>, K0: CscMatrix<F>, K1: CscMatrix<F>, rb: Seq<Range<usize>>, hslen: int, i: int, blklen: int)
+    requires kf_pre(x, maps, K0, rb, hslen), at_cone(x, K0, K1, i), 0 <= i < x.cs.len(), blklen == blk_len(x.cs[i]),
     ensures
+        x.cs.len() == x.rng.len(), x.cs.len() == rb.len(), x.cs[i].wf(), rb[i].start <= rb[i].end <= hslen, rb[i].end - rb[i].start == blklen,
+        K1.arrays_ok(), K1.rowval@.len() == K0.rowval@.len(), K1.colptr@.len() == K0.colptr@.len(), K0.colptr@.len() <= usize::MAX,
         ({ let cone = x.cs[i]; let row = row_of(x, i); let bd = cone.numel_s();
            &&& 0 <= row && row + bd <= K1.colptr@.len() && row + bd <= usize::MAX
            &&& cone.hs_diag_s() ==> (forall|c: int| row <= c < row + bd ==> #[trigger] K1.colptr@[c] < K1.rowval@.len())
@@ -1139,8 +1163,10 @@ pub proof fn lemma_hs_pre(x: KCtx, maps: Seq<SparseExpansionMap>, K0: CscMatrix<
     let cone = x.cs[i]; let row = row_of(x, i); let bd = cone.numel_s(); let nc = x.cs.len() as int;
     let gp = x.mn + cones_pdim(x.cs, i);
     let need1 = |c: int| hs_cnt(cone, x.shape, row, c);
+    reveal(kf_pre); reveal(at_cone);
     assert(x.cs[i].wf());
     assert(x.rng[i].start + x.n + x.cs[i].numel_s() <= x.mn);
+    assert(rb[i].start <= rb[i].end <= hslen && rb[i].end - rb[i].start == blk_len(x.cs[i]));
     lemma_cones_pdim_mono(x.cs, 0, nc);
     assert forall|c: int| 0 <= c < K0.colptr@.len() implies K0.colptr@[c] <= #[trigger] K1.colptr@[c] by { lemma_cones_cnt_mono(x, 0, i, c); }
     assert forall|c: int| 0 <= c < K0.colptr@.len() implies need1(c) >= 0 && (#[trigger] K1.colptr@[c]) + need1(c) <= K0.colptr@[c] + cones_cnt(x, nc, c) by {
@@ -1169,23 +1195,24 @@ pub proof fn lemma_hs_pre(x: KCtx, maps: Seq<SparseExpansionMap>, K0: CscMatrix<
 }
 // lemma_counts_give_cone_pre, part 2: after the Hs block of cone i the cursors leave room for its sparse expansion
 #[verifier::spinoff_prover]
-pub proof fn lemma_sx_pre(x: KCtx, maps: Seq<SparseExpansionMap>, K0: CscMatrix<F>, K1: CscMatrix<F>, K2: CscMatrix<F>, i: int)
+pub proof fn lemma_sx_pre(x: KCtx, maps: Seq<SparseExpansionMap>, K0: CscMatrix<F>, K1: CscMatrix<F>, K2: CscMatrix<F>, rb: Seq<Range<usize>>, hslen: int, i: int)
     requires
-        kc_pre(x, maps, K0.colptr@.len() as int), kf_room(x, K0), at_cone(x, K0, K1, i), 0 <= i < x.cs.len(), x.cs[i].sparse_s(),
+        kf_pre(x, maps, K0, rb, hslen), at_cone(x, K0, K1, i), 0 <= i < x.cs.len(), x.cs[i].sparse_s(),
         K2.arrays_ok() && K2.rowval@.len() == K0.rowval@.len() && K2.colptr@.len() == K0.colptr@.len(),
         forall|c: int| 0 <= c < K0.colptr@.len() ==> #[trigger] K2.colptr@[c] == K1.colptr@[c] + hs_cnt(x.cs[i], x.shape, row_of(x, i), c),
     ensures
         sx_room(K2, |c: int| x.cs[i].sx_cnt(x.shape, row_of(x, i), x.mn + cones_pdim(x.cs, i), c)),
-        map_matches(x.cs[i], maps[nsparse(x.cs, i)]), 0 <= nsparse(x.cs, i) < maps.len(),
+        map_matches(x.cs[i], maps[sparse_before(x.cs, i)]), 0 <= sparse_before(x.cs, i) < maps.len(),
         x.mn + cones_pdim(x.cs, i) + x.cs[i].pdim_s() <= K0.colptr@.len(), row_of(x, i) + x.cs[i].numel_s() <= x.mn + cones_pdim(x.cs, i),
         x.mn + cones_pdim(x.cs, i) + x.cs[i].pdim_s() <= usize::MAX,
 {
     let cone = x.cs[i]; let row = row_of(x, i); let nc = x.cs.len() as int;
     let gp = x.mn + cones_pdim(x.cs, i);
     let need2 = |c: int| cone.sx_cnt(x.shape, row, gp, c);
+    reveal(kf_pre); reveal(at_cone);
     assert(x.rng[i].start + x.n + x.cs[i].numel_s() <= x.mn);
     lemma_cones_pdim_mono(x.cs, i + 1, nc); lemma_cones_pdim_mono(x.cs, 0, i);
-    assert(nsparse(x.cs, i + 1) == nsparse(x.cs, i) + 1);
+    assert(sparse_before(x.cs, i + 1) == sparse_before(x.cs, i) + 1);
     assert(cones_pdim(x.cs, i + 1) == cones_pdim(x.cs, i) + cone.pdim_s());
     assert forall|c: int| 0 <= c < K0.colptr@.len() implies K0.colptr@[c] <= #[trigger] K2.colptr@[c] by {
         lemma_cones_cnt_mono(x, 0, i, c); lemma_cone_cnt_nonneg(cone, x.shape, row, gp, c);
@@ -1205,12 +1232,13 @@ pub proof fn lemma_sx_pre(x: KCtx, maps: Seq<SparseExpansionMap>, K0: CscMatrix<
 pub proof fn lemma_cone_done(x: KCtx, K0: CscMatrix<F>, K1: CscMatrix<F>, K2: CscMatrix<F>, K3: CscMatrix<F>, i: int)
     requires
         at_cone(x, K0, K1, i), 0 <= i < x.cs.len(), step_frame(K0, K1), step_frame(K1, K2), step_frame(K2, K3),
-        K3.arrays_ok(),
+        K3.arrays_ok(), K3.rowval@.len() == K0.rowval@.len(), K3.colptr@.len() == K0.colptr@.len(),
         forall|c: int| 0 <= c < K0.colptr@.len() ==> #[trigger] K2.colptr@[c] == K1.colptr@[c] + hs_cnt(x.cs[i], x.shape, row_of(x, i), c),
         forall|c: int| 0 <= c < K0.colptr@.len() ==> #[trigger] K3.colptr@[c] == K2.colptr@[c]
             + (if x.cs[i].sparse_s() { x.cs[i].sx_cnt(x.shape, row_of(x, i), x.mn + cones_pdim(x.cs, i), c) } else { 0int }),
     ensures at_cone(x, K0, K3, i + 1), step_frame(K0, K3),
 {
+    reveal(at_cone);
     let cone = x.cs[i]; let row = row_of(x, i); let gp = x.mn + cones_pdim(x.cs, i);
     assert forall|c: int| 0 <= c < K0.colptr@.len() implies #[trigger] K3.colptr@[c] == K0.colptr@[c] + cones_cnt(x, i + 1, c) by {
         assert(K2.colptr@[c] == K1.colptr@[c] + hs_cnt(cone, x.shape, row, c));
@@ -1228,6 +1256,94 @@ pub proof fn lemma_cone_done(x: KCtx, K0: CscMatrix<F>, K1: CscMatrix<F>, K2: Cs
         assert(K2.colptr@[c] == K1.colptr@[c] + hs_cnt(cone, x.shape, row, c));
     }
     lemma_frame_trans(K0, K1, K3);
+}
+
+// ---- persistence: what a helper wrote stays until the end of the loop (kind-independent) ----
+// a slot below the cursor of its own column is not touched by a step whose cursors stay inside each column's share
+pub proof fn lemma_below_free(x: KCtx, K0: CscMatrix<F>, cpa: Seq<usize>, cpb: Seq<usize>, c: int, s: int)
+    requires
+        kf_room(x, K0), cpa.len() == K0.colptr@.len(), cpb.len() == K0.colptr@.len(), 0 <= c < K0.colptr@.len(),
+        forall|q: int| 0 <= q < K0.colptr@.len() ==> K0.colptr@[q] <= #[trigger] cpa[q] <= cpb[q] <= K0.colptr@[q] + cones_cnt(x, x.cs.len() as int, q),
+        K0.colptr@[c] <= s < cpa[c],
+    ensures cur_free(cpa, cpb, s),
+{
+    assert forall|q: int| 0 <= q < cpa.len() implies !(#[trigger] cpa[q] <= s < cpb[q]) by {
+        assert(K0.colptr@[c] <= cpa[c] <= cpb[c] <= K0.colptr@[c] + cones_cnt(x, x.cs.len() as int, c));
+        if q > c { lemma_cp_mono(x, K0, c, q); }
+        if q < c { lemma_cp_mono(x, K0, q, c); }
+    }
+}
+// a state of the chain: same sizes as K0, every cursor inside its column's share
+pub open spec fn in_share(x: KCtx, K0: CscMatrix<F>, Kt: CscMatrix<F>) -> bool {
+    &&& Kt.colptr@.len() == K0.colptr@.len() && Kt.rowval@.len() == K0.rowval@.len() && Kt.nzval@.len() == K0.nzval@.len()
+    &&& forall|q: int| 0 <= q < K0.colptr@.len() ==> K0.colptr@[q] <= #[trigger] Kt.colptr@[q] <= K0.colptr@[q] + cones_cnt(x, x.cs.len() as int, q)
+}
+// the three states of cone k in the chain: frames, ordered cursors inside the shares
+#[verifier::spinoff_prover]
+pub proof fn lemma_chain_cone(x: KCtx, maps: Seq<SparseExpansionMap>, K0: CscMatrix<F>, rb: Seq<Range<usize>>, st: Seq<CscMatrix<F>>, b0: Seq<Seq<usize>>, hsb: Seq<usize>,
+                              fm: Seq<SparseExpansionMap>, k: int)
+    requires kf_pre(x, maps, K0, rb, hsb.len() as int), kf_chain(x, rb, st, b0, hsb, fm, x.cs.len() as int), st[0] == K0, 0 <= k < x.cs.len(),
+    ensures
+        st.len() == 2 * x.cs.len() + 1,
+        step_frame(st[2 * k], st[2 * k + 1]), step_frame(st[2 * k + 1], st[2 * k + 2]),
+        in_share(x, K0, st[2 * k]), in_share(x, K0, st[2 * k + 1]), in_share(x, K0, st[2 * k + 2]),
+        forall|q: int| 0 <= q < K0.colptr@.len() ==> st[2 * k].colptr@[q] <= #[trigger] st[2 * k + 1].colptr@[q] <= st[2 * k + 2].colptr@[q],
+{
+    reveal(kf_chain); reveal(kf_pre); reveal(at_cone);
+    let cone = x.cs[k]; let row = row_of(x, k); let gp = x.mn + cones_pdim(x.cs, k); let nc = x.cs.len() as int;
+    let Ka = st[2 * k]; let Kb = st[2 * k + 1]; let Kc = st[2 * k + 2];
+    assert(kstep(k)); assert(kstep(k + 1));
+    assert(at_cone(x, K0, Ka, k)); assert(at_cone(x, K0, st[2 * (k + 1)], k + 1));
+    assert(x.rng[k].start + x.n + x.cs[k].numel_s() <= x.mn);
+    lemma_cones_pdim_mono(x.cs, 0, nc);
+    let blk = hsb.subrange(rb[k].start as int, rb[k].end as int);
+    lemma_hs_step(cone, x.shape, row, Ka, Kb, b0[k], blk);
+    assert(Kb.rowval@.len() == Ka.rowval@.len() && Kb.colptr@.len() == Ka.colptr@.len() && Kb.nzval@.len() == Ka.nzval@.len()) by { reveal(step_frame); }
+    if cone.sparse_s() { lemma_sx_step(cone, x.shape, row, gp, Kb, Kc, fm[sparse_before(x.cs, k)]); }
+    else { assert(step_frame(Kb, Kc)) by { reveal(step_frame); } }
+    assert forall|q: int| 0 <= q < K0.colptr@.len() implies
+        K0.colptr@[q] <= #[trigger] Ka.colptr@[q] <= Kb.colptr@[q] && Kb.colptr@[q] <= Kc.colptr@[q] && Kc.colptr@[q] <= K0.colptr@[q] + cones_cnt(x, nc, q) by {
+        lemma_cones_cnt_mono(x, 0, k, q); lemma_cones_cnt_mono(x, k + 1, nc, q); lemma_cone_cnt_nonneg(cone, x.shape, row, gp, q);
+        assert(Ka.colptr@[q] == K0.colptr@[q] + cones_cnt(x, k, q));
+        assert(Kc.colptr@[q] == K0.colptr@[q] + cones_cnt(x, k + 1, q));
+        assert(Kb.colptr@[q] == Ka.colptr@[q] + hs_cnt(cone, x.shape, row, q));
+        assert(cones_cnt(x, k + 1, q) == cones_cnt(x, k, q) + cone_cnt(cone, x.shape, row, gp, q));
+    }
+    assert forall|q: int| 0 <= q < K0.colptr@.len() implies K0.colptr@[q] <= #[trigger] Kb.colptr@[q] <= K0.colptr@[q] + cones_cnt(x, nc, q) by { assert(K0.colptr@[q] <= Ka.colptr@[q] <= Kb.colptr@[q]); }
+    assert forall|q: int| 0 <= q < K0.colptr@.len() implies K0.colptr@[q] <= #[trigger] Kc.colptr@[q] <= K0.colptr@[q] + cones_cnt(x, nc, q) by { assert(K0.colptr@[q] <= Ka.colptr@[q] <= Kb.colptr@[q]); }
+    assert forall|q: int| 0 <= q < K0.colptr@.len() implies K0.colptr@[q] <= #[trigger] Ka.colptr@[q] <= K0.colptr@[q] + cones_cnt(x, nc, q) by { assert(K0.colptr@[q] <= Ka.colptr@[q] <= Kb.colptr@[q]); }
+    assert forall|q: int| 0 <= q < K0.colptr@.len() implies Ka.colptr@[q] <= #[trigger] Kb.colptr@[q] <= Kc.colptr@[q] by { assert(K0.colptr@[q] <= Ka.colptr@[q] <= Kb.colptr@[q]); }
+}
+// C11 (final-state reading of kf_chain): a slot that lies below the cursor of its column after the Hs block (w == 1) or the
+// sparse expansion (w == 2) of cone k has, in the final matrix st[2 * #cones], the row index and value it had at that moment.
+// Every content clause of hs_step / sx_step speaks about such a slot, so each recorded slot holds the stated entry at the end.
+pub proof fn lemma_chain_persist(x: KCtx, maps: Seq<SparseExpansionMap>, K0: CscMatrix<F>, rb: Seq<Range<usize>>, st: Seq<CscMatrix<F>>, b0: Seq<Seq<usize>>, hsb: Seq<usize>,
+                                 fm: Seq<SparseExpansionMap>, k: int, w: int, c: int, s: int)
+    requires
+        kf_pre(x, maps, K0, rb, hsb.len() as int), kf_chain(x, rb, st, b0, hsb, fm, x.cs.len() as int), st[0] == K0, 0 <= k < x.cs.len(), 1 <= w <= 2,
+        0 <= c < K0.colptr@.len(), K0.colptr@[c] <= s < st[2 * k + w].colptr@[c],
+    ensures
+        st[2 * (x.cs.len() as int)].rowval@[s] == st[2 * k + w].rowval@[s], st[2 * (x.cs.len() as int)].nzval@[s] == st[2 * k + w].nzval@[s],
+    decreases 2 * (x.cs.len() - k) - w,
+{
+    let nc = x.cs.len() as int;
+    lemma_chain_cone(x, maps, K0, rb, st, b0, hsb, fm, k);
+    assert(kf_room(x, K0)) by { reveal(kf_pre); }
+    if w == 1 {
+        let Kb = st[2 * k + 1]; let Kc = st[2 * k + 2];
+        assert(K0.colptr@[c] <= Kb.colptr@[c] <= Kc.colptr@[c]) by { assert(st[2 * k].colptr@[c] <= Kb.colptr@[c] <= Kc.colptr@[c]); }
+        lemma_below_free(x, K0, Kb.colptr@, Kc.colptr@, c, s);
+        assert(Kc.rowval@[s] == Kb.rowval@[s] && Kc.nzval@[s] == Kb.nzval@[s]) by { reveal(step_frame); }
+        lemma_chain_persist(x, maps, K0, rb, st, b0, hsb, fm, k, 2, c, s);
+    } else if k + 1 < nc {
+        lemma_chain_cone(x, maps, K0, rb, st, b0, hsb, fm, k + 1);
+        let Ka = st[2 * (k + 1)]; let Kb = st[2 * (k + 1) + 1];
+        assert(Ka == st[2 * k + 2]);
+        assert(Ka.colptr@[c] <= Kb.colptr@[c]) by { assert(Ka.colptr@[c] <= Kb.colptr@[c] <= st[2 * (k + 1) + 2].colptr@[c]); }
+        lemma_below_free(x, K0, Ka.colptr@, Kb.colptr@, c, s);
+        assert(Kb.rowval@[s] == Ka.rowval@[s] && Kb.nzval@[s] == Ka.nzval@[s]) by { reveal(step_frame); }
+        lemma_chain_persist(x, maps, K0, rb, st, b0, hsb, fm, k + 1, 1, c, s);
+    }
 }
 
 // lemma_counts_give_cone_pre (the counterpart of lemma_counts_give_triu_pre in csc_utils): counts => cursors => the hand-over
@@ -1294,30 +1410,34 @@ pub proof fn lemma_counts_give_cone_pre(x: KCtx, Kc: CscMatrix<F>, Kp: CscMatrix
     let ghost mut st: Seq<CscMatrix<F>> = seq![K0];
     let ghost mut b0: Seq<Seq<usize>> = Seq::empty();
     let ghost mut fm: Seq<SparseExpansionMap> = Seq::empty();
-    proof { lemma_cones_pdim_mono(x.cs, 0, nc); assert(K.colptr@.len() == K.colptr.len()); assert(cones.cones@.len() == cones.cones.len()); }
+    proof {
+        lemma_cones_pdim_mono(x.cs, 0, nc); assert(K.colptr@.len() == K.colptr.len()); assert(cones.cones@.len() == cones.cones.len());
+        assert(kf_pre(x, maps0, K0, rb, mp0.Hsblocks@.len() as int)) by { reveal(kf_pre); }
+        assert(at_cone(x, K0, K0, 0)) by { reveal(at_cone); }
+        assert(step_frame(K0, K0)) by { reveal(step_frame); }
+        assert(kf_chain(x, rb, st, b0, map.Hsblocks@, fm, 0)) by { reveal(kf_chain); assert(st[0] == K0); }
+        assert(maps0.len() == sparse_before(x.cs, nc));
+    }
 //@after "let mut sparse_map_iter ="
     let ghost rem0 = sparse_map_iter.remaining();
-    proof {
-        assert(step_frame(K0, K0));
-        assert(kf_chain(x, rb, st, b0, map.Hsblocks@, fm, 0));
-    }
 //@iter 1
 it
 //@loop 1
         invariant
             refs_of(it.seq(), x.cs), i_ctr == it.index@, nc == x.cs.len(), nc <= usize::MAX, rb == cones.rng_blocks@,
             x == (KCtx { cs: cones.cones@, rng: cones.rng_cones@, shape: shape, n: n as int, mn: m + n }),
-            kc_pre(x, maps0, K0.colptr@.len() as int), kf_room(x, K0), rb_ok(x.cs, rb, mp0.Hsblocks@.len() as int),
+            kf_pre(x, maps0, K0, rb, mp0.Hsblocks@.len() as int), maps0.len() == sparse_before(x.cs, nc),
+            K.arrays_ok(), K.rowval@.len() == K0.rowval@.len(), K.colptr@.len() == K0.colptr@.len(),
             at_cone(x, K0, *K, it.index@ as int), step_frame(K0, *K),
             pcol == x.mn + cones_pdim(x.cs, it.index@ as int),
             map.P@ == mp0.P@, map.A@ == mp0.A@, map.diagP@ == mp0.diagP@, map.diag_full@ == mp0.diag_full@, map.Hsblocks@.len() == mp0.Hsblocks@.len(),
             // the iterator over the sparse maps: the maps not handed out yet are as at the start; the ones handed out are final
             sparse_map_iter.obeys_prophetic_iter_laws(), rem0.len() == maps0.len(),
-            sparse_map_iter.remaining() =~= rem0.skip(nsparse(x.cs, it.index@ as int)),
-            forall|q: int| nsparse(x.cs, it.index@ as int) <= q < rem0.len() ==> *(#[trigger] rem0[q]) == maps0[q],
-            fm.len() == nsparse(x.cs, it.index@ as int),
+            sparse_map_iter.remaining() =~= rem0.skip(sparse_before(x.cs, it.index@ as int)),
+            forall|q: int| sparse_before(x.cs, it.index@ as int) <= q < rem0.len() ==> *(#[trigger] rem0[q]) == maps0[q],
+            fm.len() == sparse_before(x.cs, it.index@ as int),
             forall|q: int| 0 <= q < fm.len() ==> *final(#[trigger] rem0[q]) == fm[q],
-            kf_chain(x, rb, st, b0, map.Hsblocks@, fm, it.index@ as int), st[0] == K0, st[2 * (it.index@ as int)] == *K,
+            kf_chain(x, rb, st, b0, map.Hsblocks@, fm, it.index@ as int), st.len() == 2 * it.index@ + 1, st[0] == K0, st[2 * (it.index@ as int)] == *K,
 //@body_start 1
         let ghost gi = it.index@ as int;
         let ghost K1 = *K;
@@ -1328,9 +1448,8 @@ it
         let ghost fm1 = fm;
         proof {
             assert(*cone == x.cs[gi]);
-            assert(x.cs[gi].wf());
-            assert(rb[gi].start <= rb[gi].end <= hsb1.len() && rb[gi].end - rb[gi].start == blk_len(x.cs[gi]));
-            lemma_hs_pre(x, maps0, K0, K1, gi, blk_len(gcone));
+            lemma_hs_pre(x, maps0, K0, K1, rb, hsb1.len() as int, gi, blk_len(gcone));
+            lemma_cones_pdim_mono(x.cs, gi + 1, nc); lemma_cones_pdim_mono(x.cs, 0, gi);
         }
 //@before "if cone.Hs_is_diagonal()"
         let ghost blk0 = block@;
@@ -1342,7 +1461,7 @@ it
             assert(forall|t: int| 0 <= t < hsb1.len() && !(rb[gi].start <= t < rb[gi].end) ==> #[trigger] hsb2[t] == hsb1[t]);
             assert(hs_step(gcone, x.shape, grow, K1, K2, blk0, hsb2.subrange(rb[gi].start as int, rb[gi].end as int)));
             lemma_hs_step(gcone, x.shape, grow, K1, K2, blk0, hsb2.subrange(rb[gi].start as int, rb[gi].end as int));
-            if gcone.sparse_s() { lemma_sx_pre(x, maps0, K0, K1, K2, gi); }
+            if gcone.sparse_s() { lemma_sx_pre(x, maps0, K0, K1, K2, rb, hsb1.len() as int, gi); }
         }
 //@before "sc.csc_fill_sparsecone("
             proof {
@@ -1350,7 +1469,7 @@ it
                     assert forall|c: int| #[trigger] sc.cnt(shape, row as int, pcol as int, c) == gcone.sx_cnt(x.shape, grow, gp, c) by { }
                     assert(sx_room(K2, |c: int| gcone.sx_cnt(x.shape, grow, gp, c)));
                 }
-                assert(*thismap == maps0[nsparse(x.cs, gi)]);
+                assert(*thismap == maps0[sparse_before(x.cs, gi)]);
             }
 //@after "sc.csc_fill_sparsecone("
             proof { fm = fm.push(*thismap); }
@@ -1358,24 +1477,131 @@ it
         proof {
             let K3 = *K;
             assert(cones_pdim(x.cs, gi + 1) == cones_pdim(x.cs, gi) + gcone.pdim_s());
-            assert(nsparse(x.cs, gi + 1) == nsparse(x.cs, gi) + (if gcone.sparse_s() { 1int } else { 0int }));
+            assert(sparse_before(x.cs, gi + 1) == sparse_before(x.cs, gi) + (if gcone.sparse_s() { 1int } else { 0int }));
             if gcone.sparse_s() {
-                let fmap = fm[nsparse(x.cs, gi)];
+                let fmap = fm[sparse_before(x.cs, gi)];
                 assert(sx_step(gcone, x.shape, grow, gp, K2, K3, fmap));
                 lemma_sx_step(gcone, x.shape, grow, gp, K2, K3, fmap);
             } else {
-                assert(step_frame(K2, K3));
+                assert(step_frame(K2, K3)) by { reveal(step_frame); }
             }
             lemma_cone_done(x, K0, K1, K2, K3, gi);
-            lemma_chain_push(x, rb, st, b0, hsb1, fm1, gi, K2, K3, blk0, hsb2, fm);
+            lemma_chain_push(x, maps0, K0, rb, st, b0, hsb1, fm1, gi, K2, K3, blk0, hsb2, fm);
             st = st.push(K2).push(K3);
             b0 = b0.push(blk0);
         }
 //@post
     proof {
+        reveal(at_cone);
         assert(map.sparse_maps@ =~= fm);
     }
 //@end
+
+// =====================================================================================================================
+// LDLDataMap::new : sizes of the index maps; one sparse map per sparse-expandable cone, in order, of its kind and size
+// =====================================================================================================================
+impl SOCExpansionMap {
+//@fn file=src/solver/core/kktsolvers/direct/quasidef/datamaps.rs in="impl SOCExpansionMap" name=new rules=R1 ret=r
+//@contract
+    ensures r.u@.len() == cone.dim, r.v@.len() == cone.dim,
+//@end
+}
+impl GenPowExpansionMap {
+//@fn file=src/solver/core/kktsolvers/direct/quasidef/datamaps.rs in="impl GenPowExpansionMap" name=new rules=R1 ret=r
+//@contract
+    requires cone.alpha@.len() + cone.dim2 <= usize::MAX,
+    ensures r.p@.len() == cone.alpha@.len() + cone.dim2, r.q@.len() == cone.alpha@.len(), r.r@.len() == cone.dim2,
+//@end
+}
+impl SecondOrderCone<F> {
+//@fn file=src/solver/core/kktsolvers/direct/quasidef/datamaps.rs in="SparseExpansionConeTrait<T> for &'_ SecondOrderCone<T>" name=expansion_map rules=R1 ret=r
+//@contract
+    ensures r matches SparseExpansionMap::SOCExpansionMap(mm) && mm.u@.len() == self.dim && mm.v@.len() == self.dim,
+//@end
+}
+impl GenPowerCone<F> {
+//@fn file=src/solver/core/kktsolvers/direct/quasidef/datamaps.rs in="SparseExpansionConeTrait<T> for &'_ GenPowerCone<T>" name=expansion_map rules=R1 ret=r
+//@contract
+    requires self.alpha@.len() + self.dim2 <= usize::MAX,
+    ensures r matches SparseExpansionMap::GenPowExpansionMap(mm) && mm.p@.len() == self.alpha@.len() + self.dim2 && mm.q@.len() == self.alpha@.len() && mm.r@.len() == self.dim2,
+//@end
+}
+// HAND-WRITTEN STAND-IN for the enum_dispatch forwarding of expansion_map
+impl<'a> SparseExpansionCone<'a, F> {
+    pub fn expansion_map(&self) -> (r: SparseExpansionMap)
+        requires self.nvars() <= usize::MAX,
+        ensures match *self {
+            SparseExpansionCone::SecondOrderCone(s) => r matches SparseExpansionMap::SOCExpansionMap(mm) && mm.u@.len() == s.dim && mm.v@.len() == s.dim,
+            SparseExpansionCone::GenPowerCone(g) => r matches SparseExpansionMap::GenPowExpansionMap(mm) && mm.p@.len() == g.alpha@.len() + g.dim2 && mm.q@.len() == g.alpha@.len() && mm.r@.len() == g.dim2,
+        },
+    {
+        match self {
+            SparseExpansionCone::SecondOrderCone(inner) => inner.expansion_map(),
+            SparseExpansionCone::GenPowerCone(inner) => inner.expansion_map(),
+        }
+    }
+}
+// under maps_match the auxiliary dimensions counted over the maps and over the cones agree
+pub proof fn lemma_maps_cones_pdim(cs: Seq<SupportedCone<F>>, maps: Seq<SparseExpansionMap>, k: int)
+    requires 0 <= k <= cs.len(), maps.len() >= sparse_before(cs, k),
+        forall|i: int| 0 <= i < k && (#[trigger] cs[i]).sparse_s() ==> map_matches(cs[i], maps[sparse_before(cs, i)]),
+    ensures maps_pdim(maps, sparse_before(cs, k)) == cones_pdim(cs, k),
+    decreases k,
+{
+    if k > 0 {
+        lemma_cones_pdim_mono(cs, k - 1, k); lemma_cones_pdim_mono(cs, 0, k - 1);
+        lemma_maps_cones_pdim(cs, maps, k - 1);
+        if cs[k - 1].sparse_s() { assert(map_matches(cs[k - 1], maps[sparse_before(cs, k - 1)])); }
+    }
+}
+impl LDLDataMap {
+//@fn file=src/solver/core/kktsolvers/direct/quasidef/datamaps.rs in="impl LDLDataMap" name=new rules=R1,R22 ret=r
+//@contract
+    requires
+        Pmat.colptr@.len() == Pmat.n + 1, Amat.colptr@.len() == Amat.n + 1,
+        forall|i: int| 0 <= i < cones.cones@.len() ==> (#[trigger] cones.cones@[i]).wf(),
+        Amat.m + Pmat.m + cones_pdim(cones.cones@, cones.cones@.len() as int) <= usize::MAX,
+    ensures
+        // C11: one index slot per entry of P and of A, n diagonal slots, one slot per Hs entry, m + n + p full-diagonal slots, and the
+        // i-th sparse-expandable cone owns the i-th sparse map, of its kind and size
+        r.P@.len() == Pmat.colptr@[Pmat.n as int], r.A@.len() == Amat.colptr@[Amat.n as int], r.diagP@.len() == Pmat.m,
+        r.Hsblocks@.len() == (if cones.rng_blocks@.len() == 0 { 0 } else { cones.rng_blocks@[cones.rng_blocks@.len() - 1].end as int }),
+        maps_match(cones.cones@, r.sparse_maps@),
+        r.diag_full@.len() == Amat.m + Pmat.m + cones_pdim(cones.cones@, cones.cones@.len() as int),
+//@pre
+        let ghost cs = cones.cones@;
+        let ghost nc = cs.len() as int;
+        proof { assert(cones.cones@.len() == cones.cones.len()); }
+//@iter 1
+it0
+//@loop 1
+            invariant refs_of(it0.seq(), cs), cs == cones.cones@, nc == cs.len(), nc <= usize::MAX, r22_n1 == sparse_before(cs, it0.index@ as int), r22_n1 <= it0.index@,
+//@iter 2
+it1
+//@loop 2
+            invariant
+                refs_of(it1.seq(), cs), cs == cones.cones@, nc == cs.len(),
+                forall|i: int| 0 <= i < cs.len() ==> (#[trigger] cs[i]).wf(),
+                sparse_maps@.len() == sparse_before(cs, it1.index@ as int),
+                forall|i: int| 0 <= i < it1.index@ && (#[trigger] cs[i]).sparse_s() ==> map_matches(cs[i], sparse_maps@[sparse_before(cs, i)]),
+//@body_start 2
+            let ghost gi = it1.index@ as int;
+            let ghost sm0 = sparse_maps@;
+            proof { assert(*cone == cs[gi]); assert(cs[gi].wf()); lemma_cones_pdim_mono(cs, 0, gi); }
+//@body_end 2
+            proof {
+                assert forall|i: int| 0 <= i < gi + 1 && (#[trigger] cs[i]).sparse_s() implies map_matches(cs[i], sparse_maps@[sparse_before(cs, i)]) by {
+                    lemma_cones_pdim_mono(cs, 0, i);
+                    if i < gi { lemma_cones_pdim_mono(cs, i + 1, gi); assert(sparse_before(cs, i + 1) == sparse_before(cs, i) + 1); assert(sparse_maps@[sparse_before(cs, i)] == sm0[sparse_before(cs, i)]); }
+                }
+            }
+//@before "let diag_full ="
+        proof {
+            lemma_maps_cones_pdim(cs, sparse_maps@, nc);
+            lemma_maps_mono(sparse_maps@, 0, sparse_maps@.len() as int);
+        }
+//@end
+}
 
 } // verus!
 fn main() {}
